@@ -25,7 +25,7 @@ def setup():
     from django.db import connection
     from .vp_djapp import models as M
     with connection.schema_editor() as ed:
-        for m in (M.T, M.Country, M.Author, M.Tag, M.Post, M.Comment):
+        for m in (M.T, M.Region, M.Country, M.Author, M.Tag, M.Post, M.Comment):
             ed.create_model(m)
     _ready = True
 
@@ -67,9 +67,11 @@ def load_scalar(rows):
 def load_relational(inst):
     """inst: dict of lists of row dicts: country, author, tag, post, comment, post_tags."""
     M = models()
-    for m in (M.Comment, M.Post, M.Tag, M.Author, M.Country):
+    for m in (M.Comment, M.Post, M.Tag, M.Author, M.Country, M.Region):
         m.objects.all().delete()
-    M.Country.objects.bulk_create([M.Country(**r) for r in inst["country"]])
+    M.Region.objects.bulk_create([M.Region(**r) for r in inst["region"]])
+    M.Country.objects.bulk_create([M.Country(id=r["id"], name=r["name"], code=r["code"],
+                                             region_id=r["region_id"]) for r in inst["country"]])
     M.Author.objects.bulk_create([M.Author(id=r["id"], name=r["name"], age=r["age"],
                                            country_id=r["country_id"]) for r in inst["author"]])
     M.Tag.objects.bulk_create([M.Tag(**r) for r in inst["tag"]])
